@@ -273,6 +273,13 @@ func runQSweep(s *qSpec, from, to int) *qResult {
 				obsv()
 			}
 		}
+		if s.Kind == "waitqueue" && len(s.Alpha) > 0 && s.Alpha[0] == "fill-repush-drain" {
+			// the FIFO queue is rebuilt as a priority ring when the first request of another priority arrives
+			ops = append(ops, hapi.QOp{Op: "repush"})
+			id++
+			ops = append(ops, hapi.QOp{Op: "push", Arg: 3000 + id})
+			obsv()
+		}
 		for i := 0; i < n; i++ {
 			ops = append(ops, hapi.QOp{Op: "pop"})
 			obsv()
@@ -330,6 +337,9 @@ func c20Sweeps(quick bool) []qSweep {
 			out = append(out, qSweep{&qSpec{Kind: kind, Params: []int{0, 0, 0}, Prio: kind == "waitqueue", Fifo: kind == "waitqueue", Alpha: []string{"fill-drain"}}, f, f + 49})
 		}
 	}
+	for f := 1; f <= top; f += 50 {
+		out = append(out, qSweep{&qSpec{Kind: "waitqueue", Params: []int{0, 0, 0}, Prio: true, Fifo: true, Alpha: []string{"fill-repush-drain"}}, f, f + 49})
+	}
 	for _, kind := range []string{"lock", "command", "manager"} {
 		for _, p := range [][]int{{1, 2, 2}, {2, 4, 2}, {4, 16, 4}} {
 			out = append(out, qSweep{&qSpec{Kind: kind, Params: p, Alpha: []string{"fill-drain"}}, 1, 160})
@@ -373,6 +383,12 @@ func c20Specs(quick bool) []*qSpec {
 		}
 		specs = append(specs, &qSpec{Kind: "waitqueue-prio", Params: []int{0, 0, 0}, Ramp: rampPush(n), Alpha: waitAlpha, Depth: d - 3, Prio: true})
 		specs = append(specs, &qSpec{Kind: "waitqueue", Params: []int{0, 0, 0}, Ramp: rampPush(n), Alpha: []string{"push", "pop", "head", "len", "iter", "maxprio", "reset"}, Depth: d - 2, Prio: true, Fifo: true})
+	}
+	for _, n := range []int{5, 9, 143, 144, 145, 257} {
+		if quick && n != 9 && n != 144 {
+			continue
+		}
+		specs = append(specs, &qSpec{Kind: "waitqueue", Params: []int{0, 0, 1}, Ramp: rampPush(n), Alpha: []string{"push", "push-p3", "pop", "head", "len", "iter", "repush"}, Depth: d - 4, Prio: true, Fifo: true})
 	}
 	for _, sz := range []int{1, 2, 3, 16} {
 		specs = append(specs, &qSpec{Kind: "ring", Params: []int{sz, 0, 0}, Alpha: []string{"push", "pop", "head", "len", "iter", "maxprio"}, Depth: d})
